@@ -428,6 +428,7 @@ def run(ctx):
     res = run_evo(ctx, cases)
     for c in cases:
         oracle(ctx, c, res[c.cid], dis)
+    __import__("c04_fix").run(ctx, dis, __import__("types").SimpleNamespace(**globals()))   # proved fixed point / contraction / linear-interpolation law vs long API runs
     ctx.sample(cases[0].describe())
     ctx.sample(cases[4].describe())
     if not ctx.quick():
